@@ -193,7 +193,8 @@ def cases(ctx):
         yield w, perms
 
 
-def run(ctx):
+def order_cases(ctx):
+    """order_by_bases / gather_layers / layer_sort_key on small DAGs: clauses monitored, model compared"""
     todo = []
     for w, perms in cases(ctx):
         for ls in perms:
@@ -227,6 +228,10 @@ def run(ctx):
             if r[k] != ans[k]:
                 ctx.drift("layers." + k, "model %s=%r real=%r (input %r)" % (k, ans[k], r[k], ls), case)
                 break
+
+
+def run(ctx):
+    order_cases(ctx)
     world_order_cases(ctx)
 
 
